@@ -562,16 +562,26 @@ def concretise(T, a):
     return None
 
 
-def run_ops(path, T, abstract_ops, fresh=True):
+def run_ops(path, T, abstract_ops, fresh=True, companion=None):
     """Perform each abstract op on the real library and compare with the truth.  Returns labels.
-    fresh=False: one reader / emulator serves all the calls of the list (as a program would use it)."""
+    fresh=False: one reader / emulator serves all the calls of the list (as a program would use it).
+    companion=(path2, T2): another file of the same shape and layout stays open in a second reader, which is
+    asked for the same item just before every call (two vintages of a line read side by side)."""
     labels = []
     shared = None if fresh else Handles(path, T)
+    other = Handles(companion[0], companion[1]) if companion else None
     try:
         for a in abstract_ops:
             op = concretise(T, a)
             if op is None:
                 continue
+            if other is not None and op["m"] not in ("get_tracefield_values", "attributes", "meta", "xarray", "tools.cube"):
+                k2, w2 = expected(companion[1], op)
+                try:
+                    g2 = perform(other, op)
+                except Exception as e:
+                    raise Violation(f"exception:{op['m']}", f"companion file, {op}: {type(e).__name__}: {e}")
+                compare(k2, g2, w2, op)
             H = Handles(path, T) if fresh else shared
             try:
                 kind, want = expected(T, op)
@@ -587,4 +597,6 @@ def run_ops(path, T, abstract_ops, fresh=True):
     finally:
         if shared is not None:
             shared.close()
+        if other is not None:
+            other.close()
     return labels
